@@ -53,6 +53,13 @@ var properties = map[string]Prop{
 		Rule: "delay-bounded DFS over schedules (switches between messages and at every mailbox Enqueue) of the real actor.System for tree shape{single,chain3,fan,mixed} x kill target(every node) x {immediate,poison} x second kill{same,ancestor,descendant} x watcher{early,twice,late,unwatched} x spawn racing the kill{in OnKill handler, same-name respawn in the parent's OnKilled handler, outsider ActorOf} x owned subscription+Loop job; oracle = children-first / exactly-once termination notices, path release, name reuse, subscription and job release; distinct_nontrivial = distinct (termination order, per-actor traces) per scenario",
 		Assumptions: append([]string{coarseAssumption}, schedAssumptions...),
 	},
+	"C03": {
+		Parts:       []Part{{Harness: "c03"}},
+		Level:       "model_checking",
+		QuickBudget: 200, ThoroughBudget: 1800,
+		Rule: "delay-bounded DFS over send/receive-level schedules of the real actor.System for target state{running, being killed (immediate/poison/slow subtree), failed+Stop/GracefulStop/Restart/GracefulRestart/Resume, terminated, terminated+name reused, never existed, zombie, system stopped, stashing} x reference provenance{ActorOf warm/cold cache, Clone, ParseRef, FindActor} x sender{outside goroutine, sibling actor}, three numbered messages racing the transition; oracle = conservation (processed xor stashed xor dead-lettered exactly once, by the addressee only, no mailbox holding mail at quiescence); distinct_nontrivial = distinct fate vectors per scenario",
+		Assumptions: append([]string{coarseAssumption}, schedAssumptions...),
+	},
 	"C05": {
 		Parts:       []Part{{Harness: "c05"}},
 		Level:       "model_checking",
